@@ -258,3 +258,41 @@ Proof.
     destruct (aget str_eqb methods s0) as [h|]; [|reflexivity].
     apply bind_cwr_some; assumption.
 Qed.
+
+(* ------------------------------------------------------------------ *)
+(* a concrete configuration and reachable state for the Examples      *)
+(* ------------------------------------------------------------------ *)
+Module Ex.
+  Open Scope string_scope.
+  Definition e1 := s2l "e1".
+  Definition e2 := s2l "e2".
+  Definition chat := s2l "/chat".
+  Definition plain := s2l "/plain".
+  (* "/": function handlers and a catch-all; "/chat": class-based namespace; "/plain": served, no handlers *)
+  Definition cfg0 (always : bool) (connect_outcome : outcome) : cfg :=
+    mkCfg [(slash, [(s2l "connect", 1%N); (s2l "disconnect", 2%N); (s2l "msg", 3%N); (star, 4%N)])]
+          [(chat, [(s2l "connect", 5%N); (s2l "disconnect", 6%N); (s2l "hello", 7%N); (s2l "blob", 8%N)])]
+          [(1%N, mkBehav (Some 2%nat) [] connect_outcome);
+           (2%N, mkBehav (Some 2%nat) [] (Returns PNone));
+           (3%N, mkBehav (Some 2%nat) [] (Returns (PTuple [PInt 1; PBytes [1%N; 2%N]])));
+           (4%N, mkBehav None [] (Returns (PStr (s2l "any"))));
+           (5%N, mkBehav (Some 3%nat) [] (Returns PNone));
+           (6%N, mkBehav (Some 1%nat) [] (Returns PNone));
+           (7%N, mkBehav (Some 1%nat) [] (Returns (PList [PInt 7])));
+           (8%N, mkBehav (Some 2%nat) [] (Returns PNone))]
+          (Some [slash; plain]) always true.
+  Definition c := cfg0 false (Returns PNone).
+  Definition env1 := PDict [(PStr (s2l "k"), PInt 1)].
+  Definition auth := PDict [(PStr (s2l "t"), PInt 1)].
+  Definition connect_chat (e : str) :=
+    EioMessage e (PStr (s2l "0/chat,{""t"":1}")) [(s2l "{""t"":1}", Ok auth)].
+  Definition ops0 : list op :=
+    [EioConnect e1 env1; EioConnect e2 env1;
+     EioMessage e1 (PStr (s2l "0")) [];
+     EioMessage e2 (PStr (s2l "0")) [];
+     connect_chat e1;
+     EioMessage e2 (PStr (s2l "0/plain,")) []].
+  (* e1 is S0 on "/" and S2 on "/chat"; e2 is S1 on "/" and S3 on "/plain" *)
+  Definition s0 := fst (run c srv_init ops0).
+  Definition S (n : N) := PStr (sid_name n).
+End Ex.
